@@ -17,7 +17,7 @@ void muggle_synclock_init(muggle_sync_t *synclock)
 void muggle_synclock_lock(muggle_sync_t *synclock)
 {
 	muggle_sync_t expected = MUGGLE_SYNCLOCK_STATUS_UNLOCK;
-	while (!muggle_atomic_cmp_exch_weak(
+	while (!muggle_atomic_cmp_exch_strong(
 		synclock, &expected, MUGGLE_SYNCLOCK_STATUS_LOCK,
 		muggle_memory_order_acquire)
 		&& expected != MUGGLE_SYNCLOCK_STATUS_UNLOCK)
